@@ -110,6 +110,32 @@ let fmt_db (u : int list) (w : world) =
     | None, None -> None
     | a, b -> Some (Printf.sprintf "%d=S:%s|D:%s" p (f a) (f b))) u)
 
+
+(* ---- engine ---- *)
+let path_of_str (t : string) : n list = if t = "" then [] else List.map (fun c -> n_of_int (int_of_string c)) (String.split_on_char '.' t)
+let str_of_path (p : n list) : string = String.concat "." (List.map (fun c -> string_of_int (int_of_n c)) p)
+let kv_of (t : string) : (string * string) list =
+  List.filter_map (fun kv -> match String.split_on_char '=' kv with [k; v] -> Some (k, v) | _ -> None) (String.split_on_char ',' t)
+let zint s = z_of_int (int_of_string s)
+let nint s = n_of_int (int_of_string s)
+let act_str = function ASkip -> "skip" | ACreate -> "create" | AUpdate -> "update" | ADelete -> "delete"
+let err_str = function E_NotDir -> "ENOTDIR" | E_IsDir -> "EISDIR" | E_NoEnt -> "ENOENT"
+let fs_of_entries (ents : string) : (n list -> node option) * n list list =
+  let items = if ents = "-" then [] else String.split_on_char ',' ents in
+  let tbl = Hashtbl.create 64 in
+  let order = ref [] in
+  List.iter (fun it -> match String.split_on_char ':' it with
+    | ["d"; p] -> Hashtbl.replace tbl p Dir; order := path_of_str p :: !order
+    | ["f"; p; sz; mt; c] -> Hashtbl.replace tbl p (File (nint c, nint sz, zint mt)); order := path_of_str p :: !order
+    | _ -> failwith "dst entry") items;
+  ((fun p -> Hashtbl.find_opt tbl (str_of_path p)), List.rev !order)
+let str_of_fs (m : n list -> node option) (u : n list list) : string =
+  let items = List.filter_map (fun p -> match m p with
+    | Some Dir -> Some ("d:" ^ str_of_path p)
+    | Some (File (c, sz, mt)) -> Some (Printf.sprintf "f:%s:%d:%d:%d" (str_of_path p) (int_of_n sz) (int_of_z mt) (int_of_n c))
+    | None -> None) u in
+  if items = [] then "-" else String.concat "," (List.sort compare items)
+
 let app_str old = function
   | None -> "NOOPS"
   | Some ops -> (match apply old ops with None -> "ERR" | Some l -> hex_of_bytes l)
@@ -193,6 +219,26 @@ let handle (toks : string list) : string =
             (t', w')
         | _ -> failwith "step") (0, empty_world) steps in
       if !out = [] then "-" else String.concat " ; " (List.rev !out)
+  | ["E"; flags; now; srcs; dsts; extra] ->
+      (* one run of the one-way engine; extra = further universe paths (parents the run may create) *)
+      let kv = kv_of flags in
+      let g k = List.assoc k kv in
+      let b k = g k = "1" in
+      let c = { c_delete = b "delete"; c_force_delete = b "force"; c_threshold = zint (g "thr"); c_dry_run = b "dry";
+                c_ignore_times = b "it"; c_size_only = b "so"; c_checksum = b "ck"; c_big = nint (g "big"); c_max_errors = nint (g "maxerr") } in
+      let src = if srcs = "-" then [] else List.map (fun it -> match String.split_on_char ':' it with
+        | [k; p; sz; mt; ct; sp] -> { se_path = path_of_str p; se_is_dir = (k = "d"); se_size = nint sz; se_mtime = zint mt; se_content = nint ct; se_sparse = (sp = "1") }
+        | _ -> failwith "src entry") (String.split_on_char ',' srcs) in
+      let (dst, dorder) = fs_of_entries dsts in
+      let ex = if extra = "-" then [] else List.map path_of_str (String.split_on_char ',' extra) in
+      let u = List.fold_left (fun acc p -> if List.mem p acc then acc else acc @ [p]) [] (dorder @ List.map (fun e -> e.se_path) src @ ex) in
+      let refuse d n t = Z.ltb (Z.mul t n) (Z.mul (z_of_int 100) d) in
+      let r = run refuse c (zint now) u src dst in
+      Printf.sprintf "refused=%d exit=%d errs=%s evs=%s dst=%s"
+        (if r.r_refused then 1 else 0) (int_of_z (exit_status c r))
+        (if r.r_errors = [] then "-" else String.concat "," (List.map (fun ((p, a), e) -> Printf.sprintf "%s:%s:%s" (str_of_path p) (act_str a) (err_str e)) r.r_errors))
+        (if r.r_events = [] then "-" else String.concat "," (List.map (fun (a, p) -> Printf.sprintf "%s:%s" (act_str a) (str_of_path p)) r.r_events))
+        (str_of_fs r.r_fs u)
   | _ -> "BADCASE"
 
 let () =
